@@ -21,6 +21,8 @@ var menu = []string{
 	"addtag:tag/a=cport:1", "addtag:tag/b=tag:a", "addtag:tag/c=-tag:b sport:53", "addtag:tag/a=cdata:foo", "addtag:mark/m=id:0",
 	"addtag:mark/x=cport:1", "addtag:bad=cport:1", "addtag:tag/=cport:1", "addtag:tag/s=tag:s", "addtag:tag/d=tag:zz", "addtag:tag/e=cport:(",
 	"addtag:service/v=sport:80", "addtag:tag/t=ltime:-1h:",
+	// references made inside a sub-query are references too
+	"addtag:tag/q=@x:tag:a", "updtag:tag/a=tag:q", "updtag:tag/q=@x:tag:b", "deltag:tag/q",
 	"updtag:tag/a=tag:b", "updtag:tag/a=tag:zz", "updtag:tag/a=sport:80", "updtag:tag/b=cport:2", "updtag:tag/zz=cport:1", "updtag:tag/a=tag:a", "updtag:tag/b=tag:c", "updtag:mark/m=cport:1",
 	"color:tag/a=#123456", "color:tag/zz=#123456",
 	"rename:tag/a=tag/a2", "rename:tag/b=tag/a", "rename:tag/a=service/a", "rename:tag/b=tag/b2", "rename:tag/a=tag/",
@@ -308,7 +310,7 @@ func Run(tier string) int {
 	cv["traces_validated_against_impl"] = transitions
 	cv["evaluations"] = transitions
 	cv["distinct_nontrivial"] = applied
-	cv["rule"] = "BFS over sequences of tag API calls (43-call menu: valid and invalid names, definitions, references to existing/missing/self/cycle-closing tags, query/colour/name updates, marks with known/unknown ids, converter attach/detach, deletes) on the real service holding 3 imported streams, background jobs drained after every call; a state is the complete tag table; every transition runs in a supervised worker process; non-trivial = the call was applied (returned nil)"
+	cv["rule"] = "BFS over sequences of tag API calls (47-call menu: valid and invalid names, definitions, references to existing/missing/self/cycle-closing tags, query/colour/name updates, marks with known/unknown ids, converter attach/detach, deletes) on the real service holding 3 imported streams, background jobs drained after every call; a state is the complete tag table; every transition runs in a supervised worker process; non-trivial = the call was applied (returned nil)"
 	cv["menu"] = len(menu)
 	cv["depth_completed"] = depthDone
 	cv["depth_bound"] = depth
